@@ -455,7 +455,8 @@ func Replay(ctx *Ctx, fres *FuncResult, o *Obligation, secs int) ReplayOutcome {
 			return ro
 		}
 	}
-	if len(rspecs) == 0 {
+	if len(rspecs) == 0 && o.Kind != "safe" {
+		// (a run-time failure needs no result to compare: the call panics or it does not)
 		return ReplayOutcome{Status: "not-replayable", Detail: "no comparable result value"}
 	}
 	return finish(buildReplayTest(fn, pkg, ql, argExprs, rIdx, expExprs, o, tps))
